@@ -63,7 +63,17 @@ def run_step(step, heap):
         if "edges" in a:
             # edge-wise Hamiltonian builders: one term of the returned dict
             edges = [tuple(e) for e in a["edges"]]
-            terms = fn(a["sym"], edges, *a.get("args", []))
+            args = list(a.get("args", []))
+            if a.get("as") == "dict" and args:
+                # parameters per edge / per site instead of one number
+                sites = sorted({s_ for e in edges for s_ in e})
+                args[0] = {e: args[0] for e in edges}
+                if len(args) > 1 and "spinless" not in a["fn"]:
+                    args[1] = {s_: args[1] for s_ in sites}
+            elif a.get("as") == "callable" and args:
+                t0 = args[0]
+                args[0] = lambda i, j, _t=t0: _t
+            terms = fn(a["sym"], edges, *args)
             return terms[edges[a["pick"]]]
         return fn(a["sym"], *a.get("args", []))
     if op == "repr":
@@ -698,6 +708,7 @@ def g_new(ctx, heap):
             args = [ctx.rng.choice([1.0, 0.5, -2.0]) for _ in range(nargs)]
             return [{"op": "new_local", "in": [], "out": [ctx.fresh()],
                      "a": {"fn": hfn, "sym": ctx.rng.choice(ok), "args": args,
+                           "as": ctx.rng.choice(["number", "number", "dict", "callable"]),
                            "edges": edges, "pick": ctx.rng.randrange(len(edges))}}]
         if ok:
             args = [ctx.rng.choice([1.0, 0.5, -2.0]) for _ in range(nargs)]
